@@ -290,3 +290,47 @@ pub fn dispatch(inp: &Value) -> R<Value> {
     obs["rpc_same"] = json!(a == b);
     Ok(obs)
 }
+
+
+/// One complete exchange as a transport would run it: decode the message, dispatch the request to
+/// the (scripted) authenticator, serialise the response into the transport buffer, which still
+/// holds whatever the previous exchange left in it.  A request that cannot be decoded, or a
+/// handler error, is answered with the status byte alone.
+pub fn exchange(inp: &Value) -> R<Value> {
+    let wire = get_bytes(field(inp, "wire")?)?;
+    let script = field(inp, "script")?;
+    let fail = if get_bool(field(script, "ok")?)? { None } else { Some(field(script, "err")?.as_u64().ok_or("err")? as u16) };
+    let has_lb = get_bool(field(inp, "hasLb")?)?;
+    let cap = field(inp, "cap")?.as_u64().ok_or("cap")? as usize;
+    let stale = match inp.get("stale") { Some(s) => get_bytes(s)?, None => vec![] };
+    let d = crate::ops::decode2_once(&wire);
+    let req_obs = json!({"ok": d["ok"], "status": d["status"], "cmd": d["cmd"], "v": d["v"], "code": d["code"]});
+    let (calls, buf): (Vec<Value>, Vec<u8>) = match ctap2::Request::deserialize(&wire) {
+        Err(e) => (vec![], vec![e as u8]),
+        Ok(req) => {
+            let (log, res) = if has_lb {
+                let mut a = FullAuth(Log { calls: vec![], fail });
+                let r = ctap2::Authenticator::call_ctap2(&mut a, &req);
+                (a.0, r)
+            } else {
+                let mut a = NoLbAuth(Log { calls: vec![], fail });
+                let r = ctap2::Authenticator::call_ctap2(&mut a, &req);
+                (a.0, r)
+            };
+            let calls = log.calls.iter().map(|c| json!(c.0)).collect();
+            match res {
+                Ok(resp) => {
+                    let out = crate::with_cap!(cap, serialize_into_pub, &resp, &stale)
+                        .ok_or_else(|| format!("capacity {} is not instantiated", cap))?;
+                    (calls, out)
+                }
+                Err(e) => (calls, vec![e as u8]),
+            }
+        }
+    };
+    Ok(json!({"req": req_obs, "calls": calls, "buf": proj::bytes(&buf)}))
+}
+
+fn serialize_into_pub<const N: usize>(resp: &ctap2::Response, stale: &[u8]) -> Vec<u8> {
+    crate::ops::serialize_into::<N>(resp, stale)
+}
